@@ -1,20 +1,39 @@
 #!/usr/bin/env python3
-"""seedall.py [ids…]: run lib/seedtest.py over every seeded change (sequentially: the checks share the lean workspace)."""
+"""seedall.py [-jN] [ids…]: run lib/seedtest.py over every seeded change. Seeds of one property (and of properties that
+share generated files: C01–C03) run one after the other; different groups run in parallel (default 4 workers)."""
 import sys, os, glob, subprocess, json
+from concurrent.futures import ThreadPoolExecutor
 ROOT = os.path.dirname(os.path.dirname(os.path.abspath(__file__)))
-want = sys.argv[1:]
-n = miss = 0
+args = sys.argv[1:]
+jobs = 4
+if args and args[0].startswith('-j'):
+    jobs = int(args[0][2:]); args = args[1:]
+want = args
+groups = {}
 for d in sorted(glob.glob(os.path.join(ROOT, 'seeded/*/'))):
     name = os.path.basename(d.rstrip('/'))
     if want and not any(name.startswith(w) for w in want):
         continue
-    p = subprocess.run([sys.executable, os.path.join(ROOT, 'lib/seedtest.py'), d, '--no-suite'], stdout=subprocess.PIPE, stderr=subprocess.STDOUT, text=True)
-    try:
-        r = json.loads(p.stdout.strip().split('\n')[-1])
-    except Exception:
-        print(name, 'ERROR', p.stdout[-300:]); continue
-    n += 1
-    ok = r.get('detected')
-    miss += not ok
-    print(name, 'applies=%s demo_fails=%s detected=%s by=%s' % (r.get('patch_applies'), r.get('demo_fails_patched'), ok, r.get('by')), flush=True)
-print('%d seeds, %d not detected' % (n, miss))
+    pid = name.split('-')[0]
+    g = 'pmm' if pid in ('C01', 'C02', 'C03') else ('aml' if pid in ('C11', 'C12', 'C13') else ('spin' if pid in ('C08', 'C09') else pid))
+    groups.setdefault(g, []).append(d)
+def run_group(ds):
+    out = []
+    for d in ds:
+        name = os.path.basename(d.rstrip('/'))
+        p = subprocess.run([sys.executable, os.path.join(ROOT, 'lib/seedtest.py'), d, '--no-suite'], stdout=subprocess.PIPE, stderr=subprocess.STDOUT, text=True)
+        try:
+            r = json.loads(p.stdout.strip().split('\n')[-1])
+        except Exception:
+            print(name, 'ERROR', p.stdout[-300:], flush=True); out.append((name, None)); continue
+        print(name, 'applies=%s demo_fails=%s detected=%s by=%s' % (r.get('patch_applies'), r.get('demo_fails_patched'), r.get('detected'), r.get('by')), flush=True)
+        out.append((name, r))
+    return out
+res = []
+with ThreadPoolExecutor(jobs) as ex:
+    for o in ex.map(run_group, groups.values()):
+        res += o
+n = len(res)
+noapply = [x for x, r in res if r and r.get('patch_applies') is False]
+miss = [x for x, r in res if r and r.get('patch_applies') and not r.get('detected')]
+print('%d seeds, %d not detected %s, %d no longer apply %s' % (n, len(miss), miss, len(noapply), noapply))
